@@ -17,6 +17,6 @@ def main (args : List String) : IO UInt32 := do
     | _ => Via.spec
   let hin ← IO.getStdin
   let hout ← IO.getStdout
-  loop hin hout specAnswerer { via := via }
+  loop hin hout (if via == Via.model then modelAnswerer else specAnswerer) { via := via }
   hout.flush
   return 0
